@@ -25,6 +25,10 @@ def resV : Res Vec → Out
 def specGrow (t : Ty) (r : BV) (extra : List Val := []) : Out :=
   if overCap t r.len then .panic else .ok (.sv r :: extra)
 
+/-- the same with the result computed only when it fits (lengths near `2^64` must not be materialised) -/
+def specGrowL (t : Ty) (len : Nat) (r : Unit → BV) : Out :=
+  if overCap t len then .panic else .ok [.sv (r ())]
+
 def bvOfBits (l : List Bool) : BV := BV.ofBits l
 
 -- ---- spec helpers ---------------------------------------------------------------------------------
@@ -115,13 +119,13 @@ def runOp (op : String) (dbg : Bool) (a : List String) : Option (Out × Out) := 
   -- constructors ------------------------------------------------------------------------------------
   | "zeros", [t, n] =>
     let t ← parseTy t; let n ← n.toNat?
-    pure (resV (zeros t n), specGrow t (BV.zeros n))
+    pure (resV (zeros t n), specGrowL t n (fun _ => BV.zeros n))
   | "ones", [t, n] =>
     let t ← parseTy t; let n ← n.toNat?
-    pure (resV (ones t n), specGrow t (BV.ones n))
+    pure (resV (ones t n), specGrowL t n (fun _ => BV.ones n))
   | "repeat", [t, b, n] =>
     let t ← parseTy t; let b ← parseBool b; let n ← n.toNat?
-    pure (resV (if b then ones t n else zeros t n), specGrow t (BV.repeat b n))
+    pure (resV (if b then ones t n else zeros t n), specGrowL t n (fun _ => BV.repeat b n))
   | "with_capacity", [t, c] =>
     let t ← parseTy t; let c ← c.toNat?
     let m : Out := match withCapacity t c with
@@ -207,13 +211,13 @@ def runOp (op : String) (dbg : Bool) (a : List String) : Option (Out × Out) := 
     pure (.ok [.vec p.1, .obit p.2], .ok [.sv q.1, .obit q.2])
   | "resize", [v, n, b] =>
     let v ← parseVec v; let n ← n.toNat?; let b ← parseBool b
-    pure (resV (resize v n b), specGrow v.ty (v.abs.resize n b))
+    pure (resV (resize v n b), specGrowL v.ty n (fun _ => v.abs.resize n b))
   | "truncate", [v, n] =>
     let v ← parseVec v; let n ← n.toNat?
     pure (resV (truncate v n), specGrow v.ty (v.abs.truncate n))
   | "sign_extend", [v, n] =>
     let v ← parseVec v; let n ← n.toNat?
-    pure (resV (signExtend v n), specGrow v.ty (v.abs.signExtend n))
+    pure (resV (signExtend v n), specGrowL v.ty (max n v.len) (fun _ => v.abs.signExtend n))
   | "append", [v, x] =>
     let v ← parseVec v; let x ← parseVec x
     pure (resV (append v x.any), specGrow v.ty (v.abs.append x.abs))
@@ -308,6 +312,10 @@ def runOp (op : String) (dbg : Bool) (a : List String) : Option (Out × Out) := 
   | "hash", [v] =>
     let v ← parseVec v
     pure (.ok [.hash (hashStream v)], .ok [.hash (specHash (wordWidth v.ty) v.abs)])
+  | "eqhash", [l, r] =>   -- same type: a == b, b == a, and (equal → same hasher input)
+    let l ← parseVec l; let r ← parseVec r
+    let se := l.abs.val == r.abs.val
+    pure (.ok [.bool (eq l r), .bool (eq r l), .bool (!(eq l r || eq r l) || hashStream l == hashStream r)], .ok [.bool se, .bool se, .bool true])
   | "fmt", [v, k] =>
     let v ← parseVec v
     let k := k.front
